@@ -19,7 +19,7 @@ import (
 
 type c09Case struct {
 	Pattern string `json:"pattern"`
-	Opts    int    `json:"opts"`            // regexp2.RegexOptions bits
+	Opts    int    `json:"opts"`              // regexp2.RegexOptions bits
 	Ordered bool   `json:"ordered,omitempty"` // OptionMaintainCaptureOrder
 	Input   string `json:"input"`
 	Rep     string `json:"rep"`
@@ -200,7 +200,7 @@ func c09Enumerate(re *regexp2.Regexp, input string, startAt int) ([]c09Match, er
 //	Without ECMAScript `$n` takes all the digits; with it, the longest prefix that is a group number.
 
 type c09Groups struct {
-	numbers []int          // group number of each slot (GetGroupNumbers)
+	numbers []int            // group number of each slot (GetGroupNumbers)
 	byName  func(string) int // GroupNumberFromName
 	ecma    bool
 }
@@ -867,6 +867,69 @@ func c09EqStrings(a, b []string) bool {
 	return true
 }
 
+// ---------------------------------------------------------------------------------------------
+// leg K: the per-Regexp cache of parsed replacements is transparent
+
+type c09CacheCase struct {
+	Pattern string   `json:"pattern"`
+	Opts    int      `json:"opts"`
+	Input   string   `json:"input"`
+	Reps    []string `json:"reps"`
+	Cache   int      `json:"cache"` // OptionMaxCachedReplacerDataEntries
+}
+
+func c09CacheGen(rng *rand.Rand, i int) c09CacheCase {
+	cs := c09CacheCase{Pattern: c09Alt(rng, 2), Input: c09Input(rng), Cache: []int{1, 2, 3, 16}[rng.Intn(4)]}
+	if rng.Intn(3) == 0 {
+		cs.Opts = int(regexp2.RightToLeft)
+	}
+	distinct := make([]string, 2+rng.Intn(5))
+	for j := range distinct {
+		distinct[j] = c09Rep(rng)
+	}
+	n := 4 + rng.Intn(12)
+	for j := 0; j < n; j++ {
+		cs.Reps = append(cs.Reps, distinct[rng.Intn(len(distinct))])
+	}
+	return cs
+}
+
+func c09CacheCheck(c *core.Ctx, cases []c09CacheCase) []core.Outcome {
+	outs := make([]core.Outcome, len(cases))
+	for i, cs := range cases {
+		o := &outs[i]
+		o.Key = fmt.Sprintf("%s|%d|%s|%q|%d", cs.Pattern, cs.Opts, cs.Input, cs.Reps, cs.Cache)
+		cached, err1 := regexp2.Compile(cs.Pattern, regexp2.RegexOptions(cs.Opts), regexp2.OptionMaxCachedReplacerDataEntries(cs.Cache))
+		plain, err2 := regexp2.Compile(cs.Pattern, regexp2.RegexOptions(cs.Opts), regexp2.OptionMaxCachedReplacerDataEntries(0))
+		if err1 != nil || err2 != nil {
+			o.Buckets = append(o.Buckets, "compile-error")
+			continue
+		}
+		cached.MatchTimeout, plain.MatchTimeout = 5*time.Second, 5*time.Second
+		seen := map[string]bool{}
+		for k, rep := range cs.Reps {
+			a, ea, pa := c09Safe(func() (string, error) { return cached.Replace(cs.Input, rep, -1, -1) })
+			b, eb, pb := c09Safe(func() (string, error) { return plain.Replace(cs.Input, rep, -1, -1) })
+			if pa != nil || pb != nil || (ea != nil) != (eb != nil) || a != b {
+				o.Fail = &core.Failure{Kind: "impl-violation", Key: "cache:differs", Summary: fmt.Sprintf("Replace through the replacement cache (size %d) differs from an uncached Regexp at call %d (%q)", cs.Cache, k, rep),
+					Expected: fmt.Sprint(b, eb, pb), Got: fmt.Sprint(a, ea, pa)}
+				break
+			}
+			if a != cs.Input {
+				o.Nontrivial = true
+			}
+			if seen[rep] {
+				o.Buckets = append(o.Buckets, "repeat-call")
+			}
+			seen[rep] = true
+		}
+		if len(seen) > cs.Cache {
+			o.Buckets = append(o.Buckets, "more-strings-than-cache")
+		}
+	}
+	return outs
+}
+
 func init() {
 	core.Register("C09", func(c *core.Ctx) {
 		corpus := []c09Case{
@@ -888,8 +951,14 @@ func init() {
 		}
 		core.RunLeg(c, core.Leg[c09Case]{
 			Name: "P", Kind: "correspondence+oracle",
-			Rule: "random patterns (literals, classes, anchors, lookarounds, numbered/named/explicitly numbered groups, alternation, quantifiers incl. optional groups and empty-matching loops, backreferences) × options (none, RightToLeft, ECMAScript, IgnoreCase, ExplicitCapture, capture-order) × inputs over {a,b,c,space,-,1,é,日,😀} × replacement strings from the $-grammar (valid, ambiguous, malformed, overflowing) × startAt in [-1,len] × count in {-2,-1,0,1,2,3,5}; non-trivial = at least one match; distinct by the whole case. Oracle (no model): Replace / ReplaceFunc / Split vs a fold over the matches enumerated with FindStringMatchStartingAt/FindNextMatch and an independent $-expansion; Replace(s,\"$&\")=s; Split pieces + matched texts rebuild the input. Correspondence: Lean scanner vs syntax.NewReplacerData (Rules, Strings); Lean replace/replaceFunc/split on Go's match sequence vs the strings Go returned; Lean validity predicate on Go's sequences",
-			Corpus: corpus, N: c.N(30000, 1000000), Gen: c09Gen, Check: c09Check, Batch: 1000,
+			Rule:   "random patterns (literals, classes, anchors, lookarounds, numbered/named/explicitly numbered groups, alternation, quantifiers incl. optional groups and empty-matching loops, backreferences) × options (none, RightToLeft, ECMAScript, IgnoreCase, ExplicitCapture, capture-order) × inputs over {a,b,c,space,-,1,é,日,😀} × replacement strings from the $-grammar (valid, ambiguous, malformed, overflowing) × startAt in [-1,len] × count in {-2,-1,0,1,2,3,5}; non-trivial = at least one match; distinct by the whole case. Oracle (no model): Replace / ReplaceFunc / Split vs a fold over the matches enumerated with FindStringMatchStartingAt/FindNextMatch and an independent $-expansion; Replace(s,\"$&\")=s; Split pieces + matched texts rebuild the input. Correspondence: Lean scanner vs syntax.NewReplacerData (Rules, Strings); Lean replace/replaceFunc/split on Go's match sequence vs the strings Go returned; Lean validity predicate on Go's sequences",
+			Corpus: corpus, N: c.N(20000, 1000000), Gen: c09Gen, Check: c09Check, Batch: 1000,
+		})
+		core.RunLeg(c, core.Leg[c09CacheCase]{
+			Name: "K", Kind: "oracle",
+			Rule:   "one Regexp with a replacement cache of 1/2/3/16 entries vs the same pattern compiled with the cache off: a sequence of 4-15 Replace calls drawing from 2-6 replacement strings (repeats, evictions) must return the same strings and errors; non-trivial = some call changes the input; distinct by the whole case",
+			Corpus: []c09CacheCase{{Pattern: "(a)|b", Input: "abcab", Reps: []string{"$1", "x", "$1", "$&$&", "x", "$1"}, Cache: 1}},
+			N:      c.N(3000, 60000), Gen: c09CacheGen, Check: c09CacheCheck, Batch: 500,
 		})
 	})
 }
